@@ -67,6 +67,12 @@ CLAIMED["C09"] = dict(
     note="allow_changes conversions of wavefunction objects are covered by C14 (equivalence of the converted object) and the C01 harnesses; QCSchema provenance not yet covered here.",
     ref="4/C09")
 
+CLAIMED["C08"] = dict(
+    text="Exhaustive exploration of the real api.dump_one / dump_many / write_input under nondeterministic environment stubs (in-memory file system recording open/truncate/write/close events, fault at the k-th write, un-openable target): all 13+4 formats x every non-empty realisable subset of required attributes set to None x allow_changes x target absent/pre-existing; every prepare_dump rejection reason; faulty frame at index 0/1/2 with list and generator iterables; empty sequences; unknown/unsupported formats. Obligations: exception class per contract, no file-system event before a pre-flight error and the old bytes intact, later-frame errors propagate, every opened file is closed; the FCHK aufbau rejection is decided by z3 for all symbolic alpha/beta occupations (n<=2, thorough 3).",
+    note="The input space is discrete apart from the FCHK occupations: the forks are the quantifier; OS-level faults other than failing write()/open() outside.",
+    technique="symbolic exploration of the real API code under nondeterministic environment stubs (choice forks), event-trace obligations; z3 for the occupation-dependent FCHK pre-flight check",
+    ref="4/C08")
+
 NOT_YET = "check not built yet in this round (planned, see DESIGN.md section 4)"
 NA = {}
 
